@@ -388,6 +388,117 @@ class Body:
         return sum(1 for _h, blocks in self.natural_loops().items() if bb in blocks)
 
     # ---- definitions of locals
+    def param_roots(self):
+        """flow-insensitive *data* provenance: local -> set of parameter locals whose value may flow into it (through
+        assignments, projections, call arguments -> call result, and calls that receive a &mut to the local).
+        Index operands do not count (x[i] derives from x, not from i); tuples/structs held in a local are tracked per
+        first-level field, so `let (m, n) = (x.len(), y.len())` keeps m and n apart."""
+        if getattr(self, '_roots', None) is not None:
+            return self._roots
+
+        def places(x, out):
+            if isinstance(x, dict):
+                if isinstance(x.get('l'), int):
+                    out.append(x)
+                    return out
+                for v in x.values():
+                    places(v, out)
+            elif isinstance(x, list):
+                for v in x:
+                    places(v, out)
+            return out
+
+        def key(pl):
+            pj = pl.get('pj') or []
+            if pj and isinstance(pj[0], dict) and 'f' in pj[0]:
+                return (pl['l'], pj[0]['f'])
+            return (pl['l'], None)
+
+        def has_ref(l):
+            # only reference-carrying locals can alias storage (a usize read through an iterator cannot)
+            ty = self.locals[l]['ty']
+            return '&' in ty or '*' in ty or "'" in ty or '{closure' in ty
+
+        fields = defaultdict(set)     # local -> field keys seen
+        roots = defaultdict(set)      # (local, field|None) -> params
+        refbase = defaultdict(set)
+
+        def read(pl):
+            l, f = key(pl)
+            if f is not None:
+                return roots[(l, f)] | roots[(l, None)]
+            out = set(roots[(l, None)])
+            for ff in fields[l]:
+                out |= roots[(l, ff)]
+            return out
+
+        def add(k, new):
+            if k[1] is not None:
+                fields[k[0]].add(k[1])
+            if not new <= roots[k]:
+                roots[k] |= new
+                return True
+            return False
+
+        for l in range(1, self.arg_count + 1):
+            roots[(l, None)].add(l)
+        stmts = []
+        calls = []
+        for bb in range(self.n):
+            for st in self.stmts(bb):
+                if st['k'] == 'assign':
+                    stmts.append(st)
+                    r = st['r']
+                    if r['k'] in ('ref', 'rawptr') and (r['p'].get('pj') or [None])[0] != '*':
+                        refbase[st['p']['l']].add(r['p']['l'])
+            t = self.term(bb)
+            if t['k'] == 'call':
+                calls.append(t)
+        changed = True
+        while changed:
+            changed = False
+            for st in stmts:
+                r, d = st['r'], st['p']
+                if r['k'] == 'agg' and 'pj' not in d and r.get('ak') != 'array':
+                    for i, o in enumerate(r['ops']):
+                        new = set()
+                        for pl in places(o, []):
+                            new |= read(pl)
+                        changed |= add((d['l'], i), new)
+                    continue
+                new = set()
+                srcs = places(r, [])
+                for pl in srcs:
+                    new |= read(pl)
+                    if refbase.get(pl['l']) and has_ref(d['l']) and not refbase[pl['l']] <= refbase[d['l']]:
+                        refbase[d['l']] |= refbase[pl['l']]
+                        changed = True
+                pj = d.get('pj') or []
+                if pj and pj[0] == '*':
+                    for base in list(refbase.get(d['l'], ())):
+                        changed |= add((base, None), new)
+                changed |= add(key(d), new)
+            for t in calls:
+                new = set()
+                srcs = places(t['args'], [])
+                for pl in srcs:
+                    new |= read(pl)
+                for pl in srcs:
+                    if refbase.get(pl['l']) and has_ref(t['dest']['l']) and \
+                            not refbase[pl['l']] <= refbase[t['dest']['l']]:
+                        refbase[t['dest']['l']] |= refbase[pl['l']]
+                        changed = True
+                    if self.locals[pl['l']]['ty'].startswith('&mut'):
+                        for base in list(refbase.get(pl['l'], ())):
+                            changed |= add((base, None), new)
+                changed |= add(key(t['dest']), new)
+        out = defaultdict(set)
+        for (l, f), v in roots.items():
+            out[l] |= v
+        self._roots_fields = roots
+        self._roots = out
+        return out
+
     def defs(self):
         """local -> list of ('stmt', bb, idx, stmt) / ('call', bb, term) / ('arg',) definitions of the whole local;
         partial[local] -> number of projection stores / mutable borrows"""
@@ -584,7 +695,12 @@ def strip(e):
             return strip(e[1])
         return ('cast', strip(e[1]), e[2], e[3])
     if k == 'field':
-        return ('field', strip(e[1]), e[2])
+        inner = strip(e[1])
+        # projection out of a freshly built tuple: (a, b).0 is a
+        if isinstance(inner, tuple) and inner[0] == 'agg' and inner[1] == 'tuple' and str(e[2]).isdigit() and \
+                int(e[2]) < len(inner[3]):
+            return inner[3][int(e[2])]
+        return ('field', inner, e[2])
     if k == 'index':
         return ('index', strip(e[1]), strip(e[2]))
     if k in ('cindex', 'downcast', 'subslice'):
@@ -621,10 +737,14 @@ def strip_casts(e):
     if k == 'un':
         return ('un', e[1], strip_casts(e[2]))
     if k == 'call':
+        # lossless integer widening written as a conversion call (usize::from(x), x.into()) is a cast
+        if len(e[2]) == 1 and _INT_FROM.search(e[1] or ''):
+            return strip_casts(e[2][0])
         return ('call', e[1], tuple(strip_casts(a) for a in e[2]), e[3])
     return e
 
 
+_INT_FROM = re.compile(r'convert::num::<impl (?:std|core)::convert::From<(?:[iu](?:\d+|size)|bool)> for [iu](?:\d+|size)>::from$')
 _SHORT = re.compile(r'(?:[A-Za-z_][A-Za-z0-9_]*::)+')
 
 
@@ -685,6 +805,22 @@ def fmt(e):
     return '?%s' % (e[1] if len(e) > 1 else '')
 
 
+def emap(e, f):
+    """bottom-up rewrite: children first, then f(node) (f returns the replacement or the node itself)"""
+    if not isinstance(e, tuple) or not e or not isinstance(e[0], str):
+        return e
+    out = []
+    for x in e:
+        if isinstance(x, tuple):
+            if x and isinstance(x[0], str):
+                out.append(emap(x, f))
+            else:
+                out.append(tuple(emap(y, f) if isinstance(y, tuple) else y for y in x))
+        else:
+            out.append(x)
+    return f(tuple(out))
+
+
 def walk(e):
     """pre-order iteration over sub-expressions"""
     yield e
@@ -710,7 +846,7 @@ CMP_FLIP = {'Lt': 'Gt', 'Gt': 'Lt', 'Le': 'Ge', 'Ge': 'Le', 'Eq': 'Eq', 'Ne': 'N
 CMP_NEG = {'Lt': 'Ge', 'Ge': 'Lt', 'Gt': 'Le', 'Le': 'Gt', 'Eq': 'Ne', 'Ne': 'Eq'}
 
 
-def norm_cmp(e, truth=True):
+def norm_cmp(e, truth=True, xform=None):
     """normalise a boolean comparison expression under a branch polarity to a canonical (op, a, b) with op in
     {Lt, Le, Eq, Ne} and fmt-ed operands; returns None if e is not a comparison"""
     e = strip(e)
@@ -734,6 +870,8 @@ def norm_cmp(e, truth=True):
         op = CMP_NEG[op]
     if op in ('Gt', 'Ge'):
         op, a, b = CMP_FLIP[op], b, a
+    if xform is not None:
+        a, b = xform(a), xform(b)
     fa, fb = fmt(a), fmt(b)
     if op in ('Eq', 'Ne') and fb < fa:
         fa, fb = fb, fa
